@@ -87,6 +87,7 @@ class FFDirector(SectionLineParser):
         self.force_field = force_field
         self.current_block = None
         self.current_link = None
+        self._registered_link = None
         self.current_modification = None
         self.blocks = collections.OrderedDict()
         self.links = []
@@ -171,7 +172,11 @@ class FFDirector(SectionLineParser):
             # add FF wide citations
             self.current_link.citations.update(self.citations)
             self.current_link.make_edges_from_interactions()
-            self.force_field.links.append(self.current_link)
+            # The current link stays set after it is finished. Make sure it is
+            # registered only once, even if more sections end after it.
+            if self.current_link is not self._registered_link:
+                self.force_field.links.append(self.current_link)
+                self._registered_link = self.current_link
 
         if self.current_modification is not None:
             # add FF wide citations
